@@ -67,6 +67,9 @@ def run(report, db, tier):
     if not report.violations:
         report.floor('play write sites checked', n, 3)
     no_drop(report, db, S, M)
+    # "without disturbing later ones": a frame takes exactly its own bytes
+    from .c01 import isolation
+    isolation(report, db, cg, S, M, rule_id='R11.3i')
     Rc = report.rule('R11.5', 'set-compression in play (protocol 47) sets '
                      'threshold and flag')
 
@@ -425,8 +428,8 @@ def disconnect(report, db, cg, S, M, P, fi, arms):
         report.ok(R, 'callback guarded by not connected and handler set')
 
 
-def no_drop(report, db, S, M):
-    R = report.rule('R11.6', 'every packet read from the stream is handed '
+def no_drop(report, db, S, M, rule_id='R11.6'):
+    R = report.rule(rule_id, 'every packet read from the stream is handed '
                     'to _react before the thread reads again or leaves the '
                     'loop (no packet is consumed and dropped)')
     rn = M.method(M.thread, '_run')
@@ -465,6 +468,43 @@ def no_drop(report, db, S, M):
     if not nreads:
         raise AnalysisError('_run: no read_packet call found', rn.node,
                             rel(rn.path))
+    # the loop tells "nothing was read" from "a packet was read" by the truth
+    # of the result: a packet object must never be false.  Packet and its
+    # subclasses may not define __bool__ / __len__ (a packet with no fields
+    # would then be dropped after having been consumed from the stream).
+    truth_tested = False
+    for p0 in S.run(rn):
+        def conds_of(paths):
+            for q in paths:
+                for a, pol, _ in q.conds:
+                    yield a
+                for e in q.events:
+                    if e.kind == 'loop':
+                        for a in conds_of(e.paths):
+                            yield a
+        for a in conds_of([p0]):
+            if a[1] == 'truth' and a[2][0][0] == 'call' and \
+                    a[2][0][1][0] in ('attr', 'fn') and (
+                        a[2][0][1][2] == 'read_packet'
+                        if a[2][0][1][0] == 'attr'
+                        else a[2][0][1][1].name == 'read_packet'):
+                truth_tested = True
+    if truth_tested:
+        pk = db.get_class('minecraft.networking.packets.packet', 'Packet')
+        for ci in [pk] + db.subclasses(pk):
+            for nm in ('__bool__', '__len__', '__nonzero__'):
+                m = db.own_method(ci, nm)
+                if m is not None:
+                    lost = lost or True
+                    report.violation(
+                        R, 'drop:falsy-packet:%s' % ci.name, m.path, m.node,
+                        m.qualname, '%s defines %s, so a packet can be false; '
+                        'the networking loop takes a false result of '
+                        'read_packet for "nothing was read" and leaves the '
+                        'batch: such a packet is consumed from the stream '
+                        'and reaches no listener' % (ci.qualname, nm))
+    if lost is True:
+        return
     if lost is None:
         report.ok(R, 'on every iteration that read a packet, _react(packet) '
                   'follows before the iteration ends')
